@@ -65,6 +65,12 @@ partial def treeGoVal : Tree → Option GoVal
       | 'D' => (hexNat body).map GoVal.f64
       | 's' => (if body.isEmpty then some [] else hexList body.toList).map GoVal.str
       | 'b' => (if body.isEmpty then some [] else hexList body.toList).map GoVal.bin
+      -- unusual Go types in records of the packed suite, as the stream writer encodes them: named byte slices
+      -- (net.IP, json.RawMessage) are binaries, a time.Duration is its integer, map[string]int{"a": n} is a map
+      | 'p' => (if body.isEmpty then some [] else hexList body.toList).map GoVal.bin
+      | 'j' => (if body.isEmpty then some [] else hexList body.toList).map GoVal.bin
+      | 'd' => body.toInt?.map GoVal.int
+      | 'm' => body.toInt?.map fun n => GoVal.map (.cons [0x61] (.int n) .nil)
       | _ => none
   | .node "A" ks => (treeGoVals ks).map GoVal.arr
   | .node "M" ks => (treeGoKVs ks).map GoVal.map
